@@ -118,9 +118,18 @@ theorem plain_rect_geometry (e : Elem) (x y w h : Rat) (hn : e.name = cs!"rect")
 
 /-- **attributes the pipeline does not know are copied verbatim**, with name and classes -/
 theorem other_attributes_untouched (c : Ctx) (e e' : Elem) (hk : Attrs.NodupKeys e.attrs)
-    (h : e.resolvePosition c = .ok e') (k : Str) (hkk : k ∉ PassThrough.touchedKeys) :
+    (h : e.resolvePosition c = .ok e')
+    (hs : e.getAttr cs!"surround" = none) (hi : e.getAttr cs!"inside" = none)
+    (k : Str) (hkk : k ∉ PassThrough.touchedKeys) :
     e'.getAttr k = e.getAttr k ∧ e'.classes = e.classes ∧ e'.name = e.name :=
-  PassThrough.resolvePosition_preserves c e e' hk h k hkk
+  PassThrough.resolvePosition_preserves_plain c e e' hk h hs hi k hkk
+
+/-- the same through the whole element pipeline (resolve, dx/dy, resolve) for anything but a connector,
+    and in particular for the standard presentation and metadata attributes -/
+theorem presentation_attributes_untouched (c : Ctx) (e e' : Elem) (hk : Attrs.NodupKeys e.attrs)
+    (hc : ¬ Conn.isConnector e = true) (h : e.process c = .ok e') :
+    ∀ k ∈ PassThrough.presentationAttrs, e'.getAttr k = e.getAttr k :=
+  PassThrough.presentation_attrs_untouched_process c e e' hk hc h
 
 /-- children come out in document order -/
 theorem children_in_document_order (outs : List (Nat × List Ctl.Ev)) :
@@ -141,4 +150,5 @@ end Svgdx.Props.C04
 #print axioms Svgdx.Props.C04.lengths_with_units_bypass
 #print axioms Svgdx.Props.C04.plain_rect_geometry
 #print axioms Svgdx.Props.C04.other_attributes_untouched
+#print axioms Svgdx.Props.C04.presentation_attributes_untouched
 #print axioms Svgdx.Props.C04.children_in_document_order
